@@ -3,6 +3,8 @@ package main
 import (
 	"go/token"
 	"go/types"
+	"regexp/syntax"
+	"strconv"
 	"strings"
 
 	"golang.org/x/tools/go/ssa"
@@ -182,4 +184,422 @@ func ruleServiceListAgreement(c *Ctx) {
 	c.check(same, p.fname(acc), "the accessor reads the list the dispatcher routes on", p.pos(acc.Pos()),
 		"both use Container."+strings.Join(rn, ","),
 		"RegisteredWebServices reads {"+strings.Join(names, ",")+"} but the dispatcher hands {"+strings.Join(rn, ",")+"} to SelectRoute: what OPTIONS and preflights announce is computed from a different state than what is routed (a copy that Add or Remove does not refresh)")
+}
+
+// ---------------------------------------------------------------------------
+// ruleSubmatchContext: a capture group taken from a package-level pattern is the text between the literals the
+// pattern requires around it. When that text is used to test ANOTHER string, the literals have to be put back
+// (`:([A-Za-z]+)$` captures "cancel" out of ":cancel"; testing a request token against "cancel" alone admits
+// "nocancel").
+func literalBeforeGroups(pattern string) map[int]string {
+	re, err := syntax.Parse(pattern, syntax.Perl)
+	if err != nil {
+		return nil
+	}
+	out := map[int]string{}
+	var walk func(r *syntax.Regexp, before string)
+	walk = func(r *syntax.Regexp, before string) {
+		switch r.Op {
+		case syntax.OpCapture:
+			out[r.Cap] = before
+			if len(r.Sub) == 1 {
+				walk(r.Sub[0], "")
+			}
+		case syntax.OpConcat:
+			prev := before
+			for _, s := range r.Sub {
+				walk(s, prev)
+				if s.Op == syntax.OpLiteral {
+					prev = string(s.Rune)
+				} else {
+					prev = ""
+				}
+			}
+		}
+	}
+	walk(re, "")
+	return out
+}
+
+func ruleSubmatchContext(c *Ctx) {
+	p := c.P
+	// package-level patterns: global = regexp.MustCompile(const)
+	patterns := map[*ssa.Global]string{}
+	var inits []*ssa.Function
+	if f := p.Restful.Func("init"); f != nil {
+		inits = append(inits, f)
+	}
+	for _, fn := range p.Funcs {
+		if strings.HasPrefix(fn.Name(), "init#") {
+			inits = append(inits, fn)
+		}
+	}
+	for _, fn := range inits {
+		eachInstr(fn, func(i ssa.Instruction) {
+			st, ok := i.(*ssa.Store)
+			if !ok {
+				return
+			}
+			g, ok := st.Addr.(*ssa.Global)
+			if !ok {
+				return
+			}
+			if call, ok := strip(st.Val).(*ssa.Call); ok && (calleeName(&call.Call) == "regexp.MustCompile") {
+				if s, ok := constStr(call.Call.Args[0]); ok {
+					patterns[g] = s
+				}
+			}
+		})
+	}
+	n := 0
+	for _, fn := range p.requestPathFuncs() {
+		name := p.fname(fn)
+		eachInstr(fn, func(i ssa.Instruction) {
+			call, ok := i.(*ssa.Call)
+			if !ok || calleeName(&call.Call) != "(*regexp.Regexp).FindStringSubmatch" {
+				return
+			}
+			u, ok := strip(call.Call.Args[0]).(*ssa.UnOp)
+			if !ok {
+				return
+			}
+			g, ok := u.X.(*ssa.Global)
+			if !ok {
+				return
+			}
+			pat, ok := patterns[g]
+			if !ok {
+				return
+			}
+			lits := literalBeforeGroups(pat)
+			searched := strip(call.Call.Args[1])
+			// uses of group k >= 1
+			for _, r := range referrers(call) {
+				ia, ok := r.(*ssa.IndexAddr)
+				if !ok {
+					continue
+				}
+				k, isC := constInt(ia.Index)
+				if !isC || k < 1 || lits[int(k)] == "" {
+					continue
+				}
+				lit := lits[int(k)]
+				for _, r2 := range referrers(ia) {
+					ld, ok := r2.(*ssa.UnOp)
+					if !ok || ld.Op != token.MUL {
+						continue
+					}
+					// where the group text goes
+					for _, use := range referrers(ld) {
+						switch x := use.(type) {
+						case *ssa.Call:
+							cn := calleeName(&x.Call)
+							switch cn {
+							case "strings.HasSuffix", "strings.HasPrefix", "strings.Contains", "strings.EqualFold", "strings.Index":
+								other := x.Call.Args[0]
+								if strip(other) == ssa.Value(ld) {
+									other = x.Call.Args[1]
+								}
+								if strip(other) == searched {
+									continue
+								}
+								n++
+								c.bad(name, "group "+itoa(int(k))+" of "+g.Name()+" used to test another string without its literal context", p.ipos(x),
+									"the pattern "+strconv.Quote(pat)+" only captures what follows "+strconv.Quote(lit)+"; "+shortCallee(&x.Call)+" tests a different string against the captured text alone, so a value that merely ends in (contains) the same letters is accepted")
+							}
+						case *ssa.BinOp:
+							if x.Op == token.EQL || x.Op == token.NEQ {
+								other := x.X
+								if strip(other) == ssa.Value(ld) {
+									other = x.Y
+								}
+								if strip(other) == searched {
+									continue
+								}
+								n++
+								c.bad(name, "group "+itoa(int(k))+" of "+g.Name()+" compared with another string without its literal context", p.ipos(x),
+									"the pattern "+strconv.Quote(pat)+" only captures what follows "+strconv.Quote(lit))
+							}
+						case *ssa.MakeInterface:
+							// fmt.Sprintf(format, group): the format must put the literal back right before the verb
+							for _, u3 := range referrers(x) {
+								st, ok := u3.(*ssa.Store)
+								if !ok {
+									continue
+								}
+								ia2, ok := st.Addr.(*ssa.IndexAddr)
+								if !ok {
+									continue
+								}
+								for _, u4 := range referrers(ia2.X) {
+									sl, ok := u4.(*ssa.Slice)
+									if !ok {
+										continue
+									}
+									for _, u5 := range referrers(sl) {
+										sp, ok := u5.(*ssa.Call)
+										if !ok || calleeName(&sp.Call) != "fmt.Sprintf" {
+											continue
+										}
+										n++
+										format, okF := constStr(sp.Call.Args[0])
+										c.check(okF && strings.Contains(format, lit+"%"), name, "group "+itoa(int(k))+" of "+g.Name()+" is put back into its literal context", p.ipos(sp),
+											"format "+strconv.Quote(format)+" restores "+strconv.Quote(lit)+" in front of the captured text",
+											"the text built from the captured group does not restore "+strconv.Quote(lit)+" in front of it: the test it is used for accepts values without that literal")
+									}
+								}
+							}
+						}
+					}
+				}
+			}
+		})
+	}
+	c.count("submatch_group_uses", n)
+	if n == 0 {
+		c.note("-", "no capture group of a package-level pattern is used to test another string", "-", "nothing to decide")
+	}
+}
+
+// rulePatternNonEmpty: http.ServeMux panics on an empty pattern. A computed pattern is registered only where the
+// value it is trimmed from was found different from "" and from "/" (the root case is registered separately).
+func rulePatternNonEmpty(c *Ctx) {
+	p := c.P
+	roles := p.Roles()
+	n := 0
+	for _, reg := range muxRegistrations(p) {
+		if !roles.MutatorPath[reg.Fn] {
+			continue
+		}
+		if _, isConst := constStr(reg.Key); isConst {
+			continue
+		}
+		key := strip(reg.Key)
+		if bo, ok := key.(*ssa.BinOp); ok && bo.Op == token.ADD {
+			if _, isC := constStr(bo.Y); isC {
+				key = strip(bo.X)
+			}
+		}
+		var srcs []ssa.Value
+		var collect func(v ssa.Value, depth int)
+		seen := map[ssa.Value]bool{}
+		collect = func(v ssa.Value, depth int) {
+			v = strip(v)
+			if seen[v] || depth > 4 {
+				return
+			}
+			seen[v] = true
+			switch x := v.(type) {
+			case *ssa.Phi:
+				for _, e := range x.Edges {
+					collect(e, depth+1)
+				}
+				return
+			case *ssa.Call:
+				if cn := calleeName(&x.Call); cn == "strings.TrimRight" || cn == "strings.TrimSuffix" {
+					collect(x.Call.Args[0], depth+1)
+					return
+				}
+			}
+			srcs = append(srcs, v)
+		}
+		collect(key, 0)
+		n++
+		facts := factsAt(reg.Fn)[reg.Call.Block()]
+		notEq := func(v ssa.Value, s string) bool {
+			for f := range facts {
+				bo, ok := f.Cond.(*ssa.BinOp)
+				if !ok {
+					continue
+				}
+				neq := (bo.Op == token.NEQ && f.Pol) || (bo.Op == token.EQL && !f.Pol)
+				if !neq {
+					continue
+				}
+				for _, pr := range [][2]ssa.Value{{bo.X, bo.Y}, {bo.Y, bo.X}} {
+					if k, ok := constStr(pr[1]); ok && k == s && strip(pr[0]) == v {
+						return true
+					}
+				}
+			}
+			return false
+		}
+		okAll := len(srcs) > 0
+		for _, v := range srcs {
+			if !notEq(v, "") || !notEq(v, "/") {
+				okAll = false
+			}
+		}
+		c.check(okAll, p.fname(reg.Fn), "a computed mux pattern is registered only where it cannot be empty", p.ipos(reg.Call),
+			"the value the pattern is trimmed from was compared with \"\" and \"/\" on every path here",
+			"the registered pattern is the trimmed form of a value that was not itself tested against \"\" and \"/\" (the root test looks at another expression): for a root path whose fixed prefix is \"/\" the pattern is empty and http.ServeMux panics")
+	}
+	if n == 0 {
+		c.note("-", "no computed mux pattern", "-", "nothing to decide")
+	}
+}
+
+// ruleBothSidesNormalised: in registration code a string equality decides whether two things are "the same"
+// (duplicate root path, route to remove, pattern already mapped). Both operands must have gone through the same
+// rewriting functions; trimming one side only makes stored values that the trim changes unmatchable.
+func ruleBothSidesNormalised(c *Ctx) {
+	p := c.P
+	roles := p.Roles()
+	n := 0
+	for _, fn := range p.SrcFunc {
+		if !roles.MutatorPath[fn] {
+			continue
+		}
+		name := p.fname(fn)
+		eachInstr(fn, func(i ssa.Instruction) {
+			bo, ok := i.(*ssa.BinOp)
+			if !ok || (bo.Op != token.EQL && bo.Op != token.NEQ) || !isStringType(bo.X.Type()) {
+				return
+			}
+			if _, isC := constStr(bo.X); isC {
+				return
+			}
+			if _, isC := constStr(bo.Y); isC {
+				return
+			}
+			side := func(v ssa.Value) string {
+				w := &xformWalk{p: p, seen: map[ssa.Value]bool{}, found: map[string]bool{}, all: true, local: true}
+				w.walk(v, 0)
+				return strings.Join(sortedKeys(w.found), ", ")
+			}
+			a, b := side(bo.X), side(bo.Y)
+			if a == "" && b == "" {
+				return
+			}
+			n++
+			c.check(a == b, name, "both operands of a registration-time equality are normalised alike", p.ipos(i), "{"+a+"} on both sides",
+				"one operand went through {"+a+"}, the other through {"+b+"}: a stored value that the one-sided normalisation changes can never be equal (a route whose Path ends in '/' cannot be removed, a duplicate is not recognised)")
+		})
+	}
+	c.count("normalised_equalities", n)
+	if n == 0 {
+		c.ok("-", "registration-time equalities compare values as stored", "-", "no operand of a string equality on the mutator path is rewritten")
+	}
+}
+
+// ruleFillWithinCapacity: outside the providers' Acquire/Release methods (C13.c) the module sends on a channel only
+// while it fills a cache it has just made; such a plain send never blocks only if the loop that sends is bounded by
+// the very capacity the channel was made with.
+func ruleFillWithinCapacity(c *Ctx) {
+	p := c.P
+	methods := map[*ssa.Function]bool{}
+	for _, m := range providerMethods(p) {
+		methods[m] = true
+	}
+	n := 0
+	for _, fn := range p.SrcFunc {
+		if methods[fn] || !p.inModule(fn) {
+			continue
+		}
+		name := p.fname(fn)
+		facts := factsAt(fn)
+		eachInstr(fn, func(i ssa.Instruction) {
+			snd, ok := i.(*ssa.Send)
+			if !ok {
+				return
+			}
+			n++
+			// the channel: a local make, or a field whose only store in the module is a make
+			var mk *ssa.MakeChan
+			ch := strip(snd.Chan)
+			if m, ok := ch.(*ssa.MakeChan); ok {
+				mk = m
+			} else if _, f, ok := fieldLoad(ch); ok {
+				stores := 0
+				for _, g := range p.SrcFunc {
+					eachInstr(g, func(j ssa.Instruction) {
+						st, ok := j.(*ssa.Store)
+						if !ok {
+							return
+						}
+						fa, ok := st.Addr.(*ssa.FieldAddr)
+						if !ok || fieldOfAddr(fa) != f {
+							return
+						}
+						stores++
+						if m, ok := strip(st.Val).(*ssa.MakeChan); ok {
+							mk = m
+						}
+					})
+				}
+				if stores != 1 {
+					mk = nil
+				}
+			}
+			if mk == nil {
+				c.bad(name, "channel send outside a provider method", p.ipos(i), "a plain send on a channel that was not made with a known capacity (one make, stored once) may block forever")
+				return
+			}
+			// M is the capacity: the same value, or a field that the function making the channel sets to that value
+			isCapacity := func(m ssa.Value) bool {
+				m = strip(m)
+				if m == strip(mk.Size) {
+					return true
+				}
+				_, f, ok := fieldLoad(m)
+				if !ok {
+					return false
+				}
+				stores, same := 0, 0
+				for _, g := range p.SrcFunc {
+					eachInstr(g, func(j ssa.Instruction) {
+						st, ok := j.(*ssa.Store)
+						if !ok {
+							return
+						}
+						fa, ok := st.Addr.(*ssa.FieldAddr)
+						if !ok || fieldOfAddr(fa) != f {
+							return
+						}
+						stores++
+						if g == mk.Parent() && strip(st.Val) == strip(mk.Size) {
+							same++
+						}
+					})
+				}
+				return stores == 1 && same == 1
+			}
+			// the loop: idx < M counting up from 0, or room > 0 counting down from M
+			bounded := false
+			for f := range facts[i.Block()] {
+				bo, ok := f.Cond.(*ssa.BinOp)
+				if !ok || !f.Pol {
+					continue
+				}
+				switch bo.Op {
+				case token.LSS:
+					if isCapacity(bo.Y) && countsUpFromZero(bo.X) {
+						bounded = true
+					}
+				case token.GTR:
+					if n0, isC := constInt(bo.Y); isC && n0 == 0 {
+						if ph, ok := strip(bo.X).(*ssa.Phi); ok {
+							init, step := ssa.Value(nil), false
+							for _, e := range ph.Edges {
+								le := linearOf(e)
+								if le.base == ssa.Value(ph) && le.off == -1 {
+									step = true
+								} else {
+									init = e
+								}
+							}
+							if step && init != nil && isCapacity(init) {
+								bounded = true
+							}
+						}
+					}
+				}
+			}
+			c.check(bounded, name, "a cache is filled with at most as many objects as its channel holds", p.ipos(i),
+				"the sending loop counts from 0 to the capacity the channel was made with", "the loop that fills the channel is not bounded by the capacity the channel was made with (another variable): when it is larger the constructor blocks forever on the send")
+		})
+	}
+	if n == 0 {
+		c.note("-", "no channel send outside the provider methods", "-", "nothing to decide")
+	}
 }
